@@ -454,7 +454,8 @@ def verbatim_loads(rule, prog, ctor, adt_path, fields, what):
                     x = x.a[0]
                     continue
                 if x.k == "phi":
-                    alts = [a for a in x.a[0] if not (strip_refs(a).k == "agg" and str(strip_refs(a).a[0]).endswith(("Option::None", "ControlFlow::Break")))]
+                    alts = [a for a in x.a[0] if not (strip_refs(a).k == "agg" and str(strip_refs(a).a[0]).endswith(("Option::None", "ControlFlow::Break")))
+                            and not (strip_refs(a).k == "call" and not strip_refs(a).a[1] and strip_refs(a).a[0].endswith(("::default", "::new")))]   # the empty table of another variant
                     if len(alts) == 1:
                         x = alts[0]
                         continue
